@@ -122,3 +122,11 @@ def _later_copy(t, impl, expected):
 def _fractional_day(t, impl, expected):
     """hours_in_day returns a u8: a local day whose length is not a whole number of hours is truncated."""
     return t[0] == "zdt_hid" and "+" in expected
+
+
+@region("capi-i128-sign-lost")
+def _capi_sign(t, impl, expected):
+    """temporal_capi's I128Nanoseconds is sign-and-magnitude with the sign carried by the *high* word only: a negative
+    instant whose magnitude is below 2^64 ns (every instant between 1385 and 1970) has high = -0 = 0 and reads back
+    positive. Changing the encoding is an FFI ABI change."""
+    return t[0] == "w19_capi_instant" and -(2**64) < int(t[1]) < 0
